@@ -66,8 +66,11 @@ def sh(cmd, cwd=None, env=None, timeout=1200, stdin=None, shell=None):
 
 class Lock:
     def __init__(self, name):
-        os.makedirs(BUILD, exist_ok=True)
-        self.path = "%s/.lock.%s" % (BUILD, name)
+        # the Coq tree (/verif/coq) and the harness sources are shared by every run, whatever its
+        # VERIF_BUILD: the coq lock lives in one fixed place; go locks are per build directory
+        d = (V + "/build") if name == "coq" else BUILD
+        os.makedirs(d, exist_ok=True)
+        self.path = "%s/.lock.%s" % (d, name)
 
     def __enter__(self):
         self.f = open(self.path, "w")
